@@ -106,18 +106,18 @@ def cmd_run(a):
             if ap.returncode != 0:
                 # a later "fix:" commit rewrote the lines this change touches: run it on the tree it
                 # was written and validated for
-                base = meta.get("validated", {}).get("repo_commit")
+                old_tree = meta.get("validated", {}).get("repo_commit")
                 ok = False
-                if base:
-                    sh(["git", "-C", wt, "checkout", "-q", "--detach", base])
+                if old_tree:
+                    sh(["git", "-C", wt, "checkout", "-q", "--detach", old_tree])
                     ap = sh(["git", "-C", wt, "apply", os.path.join(d, "patch.diff")])
                     ok = ap.returncode == 0
                 if not ok:
                     print("%s: patch no longer applies (%s)" % (name, ap.stderr[:120]))
                     results.append((name, "STALE"))
                     continue
-                print("%s: applied to the tree it was written for (%s), not to HEAD" % (name, base))
-                meta["applied_to"] = base
+                print("%s: applied to the tree it was written for (%s), not to HEAD" % (name, old_tree))
+                meta["applied_to"] = old_tree
             props = a.props.split(",") if a.props else [prop]
             for p in props:
                 env = dict(os.environ, VERIF_REPO=wt)
